@@ -621,6 +621,15 @@ pub fn run(out: &mut Out, tier: &str, seed: u64, prop: &str) {
             if got.implementation_version().to_string() != c2.vers[0] || got.python_full_version().to_string() != c2.vers[1] || got.python_version().to_string() != c2.vers[2] {
                 out.oracle_fail("C01", "a version accessor of the environment does not return the text it was given", input.clone());
             }
+            {
+                // StringVersion: the text as given, the version it parses to, and the conversion from a version
+                use std::ops::Deref;
+                let v = pep440_rs::Version::from_str(&c2.vers[1]).unwrap();
+                let svv = StringVersion::from(v.clone());
+                if svv.string != v.to_string() || *svv.deref() != v || got.python_full_version().deref() != &v || got.python_full_version().string != c2.vers[1] {
+                    out.oracle_fail("C01", "StringVersion: text / version / From<Version> / Deref disagree", input.clone());
+                }
+            }
             match serde_json::to_string(&got).ok().and_then(|j| serde_json::from_str::<pep508_rs::MarkerEnvironment>(&j).ok()) {
                 Some(back) => if back != got { out.oracle_fail("C01", "an environment does not survive its serde round trip", input.clone()); },
                 None => out.oracle_fail("C01", "an environment cannot be serialized and read back", input.clone()),
